@@ -12,6 +12,13 @@ verus! {
 //@@EXTRACT enum traits/src/instructions.rs Instruction
 //@@EXTRACT enum data/src/error.rs DataErrorType derive=Clone
 
+// `==` on std::cmp::Ordering (assumed: structural)
+pub assume_specification [<Ordering as PartialEq>::eq] (a: &Ordering, b: &Ordering) -> (r: bool) ensures r == (*a == *b);
+
+// derive(Clone) on std::ops::Range clones both ends (assumed)
+pub assume_specification<Idx: Clone> [<std::ops::Range<Idx> as Clone>::clone] (x: &std::ops::Range<Idx>) -> (r: std::ops::Range<Idx>)
+    ensures call_ensures(Idx::clone, (&x.start,), r.start), call_ensures(Idx::clone, (&x.end,), r.end);
+
 // SimpleNumber (data/src/data/number.rs) is opaque here: unit K1 owns its contracts
 #[verifier::external_body]
 #[derive(Clone, Copy)]
@@ -125,6 +132,42 @@ impl<T: BasicDataCustom, Companion: BasicDataCompanion<T>> BasicGarnishData<T, C
         &&& self.custom_view() =~= o.custom_view()
     }
 
+    /// list-cell invariant (what start_list / add_to_list / end_list establish): header `List(n, m)`, then n item
+    /// cells, then m association cells sorted by key, all inside the data table
+    pub open spec fn list_wf(&self, addr: usize) -> bool {
+        let v = self.data_view();
+        addr < v.len() && (match v[addr as int] {
+            BasicData::List(len, alen) => {
+                &&& addr + 1 + len + alen <= v.len()
+                &&& forall|k: int| 0 <= k < len ==> (#[trigger] self.list_items(addr)[k]) is ListItem
+                &&& forall|k: int| 0 <= k < alen ==> (#[trigger] self.list_assocs(addr)[k]) is AssociativeItem
+                &&& forall|i: int, j: int| 0 <= i < j < alen ==> assoc_key(#[trigger] self.list_assocs(addr)[i]) <= assoc_key(#[trigger] self.list_assocs(addr)[j])
+            },
+            _ => false,
+        })
+    }
+    pub open spec fn list_len(&self, addr: usize) -> usize {
+        match self.data_view()[addr as int] { BasicData::List(len, _) => len, _ => 0 }
+    }
+    pub open spec fn list_alen(&self, addr: usize) -> usize {
+        match self.data_view()[addr as int] { BasicData::List(_, alen) => alen, _ => 0 }
+    }
+    /// the item cells / association cells of the list at `addr`
+    pub open spec fn list_items(&self, addr: usize) -> Seq<BasicData<T>> {
+        self.data_view().subrange(addr + 1, addr + 1 + self.list_len(addr))
+    }
+    pub open spec fn list_assocs(&self, addr: usize) -> Seq<BasicData<T>> {
+        self.data_view().subrange(addr + 1 + self.list_len(addr), addr + 1 + self.list_len(addr) + self.list_alen(addr))
+    }
+    /// item k of the list at `addr`
+    pub open spec fn list_item(&self, addr: usize, k: int) -> usize {
+        match self.list_items(addr)[k] { BasicData::ListItem(i) => i, _ => 0 }
+    }
+    /// association k of the list at `addr`
+    pub open spec fn list_assoc(&self, addr: usize, k: int) -> BasicData<T> {
+        self.list_assocs(addr)[k]
+    }
+
     /// everything that is not heap layout is untouched
     pub open spec fn same_scalars(&self, o: &Self) -> bool {
         &&& self.current_value == o.current_value
@@ -166,6 +209,14 @@ pub open spec fn basic_type_of<T: BasicDataCustom>(d: BasicData<T>) -> GarnishDa
         BasicData::Custom(_) => GarnishDataType::Custom,
         _ => GarnishDataType::Invalid,
     }
+}
+
+/// key / value of an association cell
+pub open spec fn assoc_key<T: BasicDataCustom>(d: BasicData<T>) -> u64 {
+    match d { BasicData::AssociativeItem(k, _) => k, _ => 0 }
+}
+pub open spec fn assoc_val<T: BasicDataCustom>(d: BasicData<T>) -> usize {
+    match d { BasicData::AssociativeItem(_, v) => v, _ => 0 }
 }
 
 /// a growth request "makes progress" and fits the machine: next_size is bigger than size and does not overflow
